@@ -3898,10 +3898,12 @@ impl<'source> Parser<'source> {
             'u' => match chars.next() {
                 Some('{') => {
                     let mut code: u32 = 0;
+                    let mut digit_count = 0;
 
                     while let Some(c) = chars.peek().cloned() {
                         if c.is_ascii_hexdigit() {
                             chars.next();
+                            digit_count += 1;
                             // More than 8 hex digits would overflow the u32
                             let Some(next_code) = code
                                 .checked_mul(16)
@@ -3916,6 +3918,12 @@ impl<'source> Parser<'source> {
                     }
 
                     match chars.next() {
+                        // At least one hex digit is expected before the closing brace
+                        Some('}') if digit_count == 0 => {
+                            self.error(UnexpectedCharInNumericEscapeCode)
+                        }
+                        // Up to 6 digits are allowed
+                        Some('}') if digit_count > 6 => self.error(UnicodeEscapeCodeOutOfRange),
                         Some('}') => match char::from_u32(code) {
                             Some(c) => Ok(c),
                             None => self.error(UnicodeEscapeCodeOutOfRange),
